@@ -17,6 +17,7 @@ these functions, and for integers the binary64 evaluation of the code cannot cha
 (distances to the tolerance are ≥ 1/(1024·div)), which the exhaustive correspondence confirms.
 -/
 import PartituraModel.Model.Pitch
+import PartituraModel.Gen.C11Consts
 
 namespace Model.Dur
 open Model Gen
@@ -50,7 +51,8 @@ def Est.truthy : Est → Bool
   | .single _ => true
   | .composite l => !l.isEmpty
 
-def eps : Rat := 1 / 1000
+/-- default of `eps` (regenerated from the signature: Gen/C11Consts.lean) -/
+def eps : Rat := Gen.C11.estimateEps
 
 /-- the tuplet guess: smallest `normal_notes ≥ n` such that `normal_notes * straight / qdur` is an integer
     up to `tol`; returns `(normal_notes, actual_notes)`; `none` = out of fuel -/
@@ -69,7 +71,7 @@ def tupletGuess (dur qdur tol : Rat) : Option Est :=
   let k := searchsortedLeft STRAIGHT_DURS qdur
   match STRAIGHT_DURS[k]?, SYM_STRAIGHT_DURS[k]? with
   | some s, some ss =>
-    match tupletLoop s qdur tol (tupletFuel dur) 2 with
+    match tupletLoop s qdur tol (tupletFuel dur) Gen.C11.tupletFirstNormal with
     | some (n, a) => if a < 0 then none else some (.single (ss.1, 0, some a.toNat, some n))
     | none => none
   | _, _ => none
@@ -80,7 +82,7 @@ def estimateRest (dur qdur tol : Rat) (com : Bool) : Option Est :=
   match COMPOSITE_DURS[j]?, SYM_COMPOSITE_DURS[j]? with
   | some c, some sc =>
     if absR (qdur - c) < tol then some (if com then .composite sc else .empty)
-    else if qdur > 4 then some .empty
+    else if qdur > Gen.C11.tupletMaxQuarters then some .empty
     else tupletGuess dur qdur tol
   | _, _ => none
 
